@@ -1,5 +1,6 @@
 (* C10, close completeness of the generation-2 Dutch auction: where the closing bid sends the
-   proceeds, per initiator type, and that nothing attributable to the auction stays in custody. *)
+   proceeds, per initiator type, and that nothing attributable to the auction stays in custody.
+   (Model = the code after fixes/C10-F2 and fixes/C10-F3.) *)
 From Comdex Require Import Lib.Base Lib.DecArith Lib.DecFacts Model.DutchV2 Proofs.DutchProofsPrice Proofs.DutchProofsBid.
 From Coq Require Import ZifyBool.
 
@@ -23,23 +24,35 @@ Proof.
   - injection H as <-. assert (x = 0) by lia. subst x. rewrite delta_zero. lia.
 Qed.
 
+Lemma ext_incentive_nonneg cf lk : 0 <= ext_incentive cf lk.
+Proof. unfold ext_incentive. destruct (Z.gtb_spec (keeper_incentive cf (l_fee lk)) 0); lia. Qed.
+
 (* the settlement step *)
 Lemma settle_spec cf lk L xf L' xf' : 0 <= l_fee lk ->
   settle cf lk L xf = Ok (L', xf') ->
   exists ki pen, 0 <= ki /\ 0 <= pen /\ ki + pen = l_fee lk /\
   forall k,
-    (l_init lk = 2 -> ki = 0 /\ xf' = xf + l_fee lk /\ L' k = L k + delta k AUC_D INI_D (l_target lk - l_fee lk)) /\
+    (l_init lk = 2 -> ki = ext_incentive cf lk /\ xf' = xf + pen /\
+                      L' k = L k + delta k AUC_D INI_D ki + delta k AUC_D INI_D (l_target lk - l_fee lk)) /\
     (l_init lk = 0 -> xf' = xf /\ L' k = L k + delta k AUC_D KEE_D ki + delta k AUC_D COL_D pen) /\
     (l_init lk <> 2 -> l_init lk <> 0 -> xf' = xf /\ L' k = L k + delta k AUC_D POOL_D (l_target lk)).
 Proof.
   intros Hfee H. unfold settle in H.
   destruct (Z.eqb_spec (l_init lk) 2) as [E2|E2].
   - destruct (Z.ltb_spec (l_target lk - l_fee lk) 0); [discriminate|].
-    destruct (Z.gtb_spec (keeper_incentive cf (l_fee lk)) 0); [discriminate|]. cbn in H.
-    apply obind_ok in H as (L2 & HL2 & H). injection H as <- <-. apply oerr_ok in HL2.
-    exists 0, (l_fee lk). split; [lia|]. split; [lia|]. split; [lia|]. intros k.
+    apply obind_ok in H as ([L1 pen] & H1 & H). apply obind_ok in H as (L2 & HL2 & H). injection H as <- <-.
+    apply oerr_ok in HL2.
+    assert (Hk : 0 <= pen /\ ext_incentive cf lk + pen = l_fee lk /\
+                 forall k, L1 k = L k + delta k AUC_D INI_D (ext_incentive cf lk)).
+    { unfold ext_incentive. destruct (Z.gtb_spec (keeper_incentive cf (l_fee lk)) 0).
+      - destruct (Z.ltb_spec (l_fee lk - keeper_incentive cf (l_fee lk)) 0); [discriminate|].
+        apply obind_ok in H1 as (Lx & Hs & H1). injection H1 as <- <-. apply oerr_ok in Hs.
+        repeat split; try lia. intros k. apply send_delta with (k := k) in Hs. exact Hs.
+      - injection H1 as <- <-. repeat split; try lia. intros k. rewrite delta_zero. lia. }
+    destruct Hk as (Hpen & Hsum & HL1). pose proof (ext_incentive_nonneg cf lk).
+    exists (ext_incentive cf lk), pen. split; [lia|]. split; [lia|]. split; [lia|]. intros k.
     split; [intros _|split; intros; lia]. split; [reflexivity|]. split; [reflexivity|].
-    apply send_delta with (k := k) in HL2. exact HL2.
+    apply send_delta with (k := k) in HL2. rewrite HL2, HL1. lia.
   - destruct (Z.eqb_spec (l_init lk) 0) as [E0|E0].
     + apply obind_ok in H as ([L1 pen] & H1 & H). apply obind_ok in H as (L2 & H2 & H).
       destruct (Z.ltb_spec pen 0); [discriminate|]. injection H as <- <-.
@@ -74,11 +87,11 @@ Lemma close_ledger cf lk a s who amt0 wd twa s' r :
       + delta k AUC_C (BID_C who) (r_recv r)
       + (if l_init lk =? 0 then delta k AUC_D BRN_D (l_target lk - l_fee lk) else 0)
       + delta k AUC_C OWN_C (a_coll a - r_recv r)
-      + (if l_init lk =? 2 then delta k AUC_D INI_D (l_target lk - l_fee lk)
+      + (if l_init lk =? 2 then delta k AUC_D INI_D ki + delta k AUC_D INI_D (l_target lk - l_fee lk)
          else if l_init lk =? 0 then delta k AUC_D KEE_D ki + delta k AUC_D COL_D pen
          else delta k AUC_D POOL_D (l_target lk)) /\
-    xfee s' = xfee s + (if l_init lk =? 2 then l_fee lk else 0) /\
-    (l_init lk = 2 -> ki = 0).
+    xfee s' = xfee s + (if l_init lk =? 2 then pen else 0) /\
+    (l_init lk = 2 -> ki = ext_incentive cf lk).
 Proof.
   intros GC GA Htwa Hfee H.
   pose proof (place_bid_amounts _ _ _ _ _ _ _ _ _ _ _ GC GA Htwa H) as (Hpaid & Hrecv & _ & Hne & He & _).
@@ -91,7 +104,7 @@ Proof.
       destruct (negb (_ >? dec_of_int _)); [discriminate|]. apply obind_ok in H as (? & _ & H).
       apply obind_ok in H as (? & _ & H). apply obind_ok in H as (? & _ & H). apply obind_ok in H as (? & _ & H).
       destruct ((_ <? 0) || (_ <? 0)); discriminate. }
-  apply obind_ok in H as ([[[[amt1 tot1] s1] short] topup] & Hx & H).
+  apply obind_ok in H as ([[[amt1 tot1] s1] topup] & Hx & H).
   apply obind_ok in H as (L2 & H2 & H). apply obind_ok in H as (L3 & H3 & H).
   apply obind_ok in H as (L4 & H4 & H). apply obind_ok in H as (L5 & H5 & H).
   destruct ((tot1 <? 0) || (amt1 <? 0)) eqn:Hneg; [discriminate|].
@@ -102,11 +115,12 @@ Proof.
     - apply obind_ok in Hx as (dal & _ & Hx).
       destruct (dal <? 0); [discriminate|]. destruct (a_debt a - dal <? 0); [discriminate|].
       destruct (rsv s) as [rv|]; [|discriminate].
-      apply obind_ok in Hx as (L1 & HL1 & Hx). injection Hx as _ _ <- _ <-. cbn. split; [reflexivity|]. intros k.
-      destruct (_ && _).
+      destruct (rv - (a_debt a - dal) <? 0); [discriminate|].
+      apply obind_ok in Hx as (L1 & HL1 & Hx). injection Hx as _ _ <- <-. cbn. split; [reflexivity|]. intros k.
+      destruct (_ >? 0) eqn:Hg.
       + apply oerr_ok in HL1. apply send_delta with (k := k) in HL1. exact HL1.
-      + injection HL1 as <-. rewrite delta_zero. lia.
-    - injection Hx as _ _ <- _ <-. split; [reflexivity|]. intros k. rewrite delta_zero. lia. }
+      + injection HL1 as <-. assert (a_debt a - dal = 0) by lia. replace (a_debt a - dal) with 0. rewrite delta_zero. lia.
+    - injection Hx as _ _ <- <-. split; [reflexivity|]. intros k. rewrite delta_zero. lia. }
   destruct H1 as (Hxf1 & H1).
   destruct (settle_spec _ _ _ _ _ _ Hfee H6) as (ki & pen & Hki & Hpen & Hsum & H6').
   exists ki, pen. split; [lia|]. split; [lia|]. split; [lia|]. intros k.
@@ -131,98 +145,183 @@ Proof.
       rewrite HL6, E5, E4, E3, E2, H1. lia.
 Qed.
 
-Lemma noexh_zero cf lk a s who amt wd twa s' a' r :
-  place_bid cf lk a s who amt wd twa = Ok (s', a', r) -> r_exh r = false -> r_short r = 0 /\ r_topup r = 0.
+Ltac eqbs := repeat match goal with |- context [?a =? ?b] => destruct (Z.eqb_spec a b); try lia end.
+
+(* the app reserve: touched only by the collateral-exhausted close, debited exactly the shortfall,
+   and only when it covers it (repaired WithdrawAppReserveFundsFn) *)
+Lemma reserve_spec cf lk a s who amt wd twa s' a' r :
+  place_bid cf lk a s who amt wd twa = Ok (s', a', r) ->
+  (r_exh r = false -> r_topup r = 0 /\ rsv s' = rsv s) /\
+  (r_exh r = true -> exists rv, rsv s = Some rv /\ rsv s' = Some (rv - r_topup r) /\ 0 <= rv - r_topup r).
 Proof.
-  intros E Hx. unfold place_bid in E.
+  intros E. split; [exact (proj1 (topup_zero _ _ _ _ _ _ _ _ _ _ _ E))|].
+  unfold place_bid in E.
   destruct (amt <=? 0); [discriminate|]. destruct wd; [discriminate|].
   apply obind_ok in E as (q & _ & E). apply obind_ok in E as (qb & _ & E).
   destruct (_ || _).
-  - apply obind_ok in E as ([[[[? ?] ?] ?] ?] & Hxx & E).
+  - apply obind_ok in E as ([[[? ?] ?] ?] & Hxx & E).
     apply obind_ok in E as (? & _ & E). apply obind_ok in E as (? & _ & E).
     apply obind_ok in E as (? & _ & E). apply obind_ok in E as (? & _ & E).
     destruct ((_ <? 0) || (_ <? 0)); [discriminate|]. apply obind_ok in E as ([? ?] & _ & E).
-    injection E as _ _ <-. cbn in Hx. rewrite Hx in Hxx. injection Hxx as _ _ _ <- <-. cbn. auto.
+    injection E as <- <- <-. cbn. intros Hx. rewrite Hx in Hxx.
+    apply obind_ok in Hxx as (dal & _ & Hxx).
+    destruct (dal <? 0); [discriminate|]. destruct (a_debt a - dal <? 0); [discriminate|].
+    destruct (rsv s) as [rv|]; [|discriminate].
+    destruct (Z.ltb_spec (rv - (a_debt a - dal)) 0); [discriminate|].
+    apply obind_ok in Hxx as (L1 & _ & Hxx). injection Hxx as _ _ <- <-. cbn.
+    exists rv. repeat split; lia.
   - apply obind_ok in E as (? & _ & E). apply obind_ok in E as (? & _ & E).
     destruct (negb (_ >? dec_of_int _)); [discriminate|]. apply obind_ok in E as (? & _ & E).
     apply obind_ok in E as (? & _ & E). apply obind_ok in E as (? & _ & E). apply obind_ok in E as (? & _ & E).
-    destruct ((_ <? 0) || (_ <? 0)); [discriminate|]. injection E as _ _ <-. cbn. auto.
+    destruct ((_ <? 0) || (_ <? 0)); [discriminate|]. injection E as <- <- <-. cbn. discriminate.
 Qed.
 
-Ltac eqbs := repeat match goal with |- context [?a =? ?b] => destruct (Z.eqb_spec a b); try lia end.
+(* a collateral-exhausted close against a reserve that does not cover the shortfall is not a
+   successful bid (so, by [step], nothing changes) *)
+Lemma short_reserve_fails cf lk a s who amt wd twa s' a' r rv :
+  place_bid cf lk a s who amt wd twa = Ok (s', a', r) -> r_exh r = true -> rsv s = Some rv -> r_topup r <= rv.
+Proof.
+  intros E Hx Hr. destruct (proj2 (reserve_spec _ _ _ _ _ _ _ _ _ _ _ E) Hx) as (rv' & Hr' & _ & H).
+  rewrite Hr in Hr'. injection Hr' as <-. lia.
+Qed.
 
-(* close completeness: outside C10-F2 the closing bid removes from the auction account exactly what
-   this auction held (its remaining collateral; the debt collected so far), and the proceeds go to
-   the listed destinations *)
+(* close completeness: the closing bid removes from the auction account exactly what this auction
+   held (its remaining collateral; the debt collected so far), and the proceeds go to the listed
+   destinations *)
 Lemma close_complete cf lk a s who amt0 wd twa s' r :
   good_cfg cf lk -> good_auction cf lk a -> 0 <= twa < 9223372036854775808 -> 0 <= l_fee lk -> 0 <= who ->
-  place_bid cf lk a s who amt0 wd twa = Ok (s', None, r) -> kf_C10_2 r = false ->
+  place_bid cf lk a s who amt0 wd twa = Ok (s', None, r) ->
   r_paid r + r_topup r = a_debt a /\
   led s' AUC_C = led s AUC_C - a_coll a /\
   led s' AUC_D - xfee s' = led s AUC_D - xfee s - (l_target lk - a_debt a) /\
   led s' OWN_C + led s' (BID_C who) = led s OWN_C + led s (BID_C who) + a_coll a /\
+  led s' LIQ_D = led s LIQ_D - r_topup r /\
   (l_init lk = 0 -> led s' BRN_D = led s BRN_D + (l_target lk - l_fee lk) /\
                     led s' COL_D + led s' KEE_D = led s COL_D + led s KEE_D + l_fee lk /\ xfee s' = xfee s) /\
-  (l_init lk = 2 -> led s' INI_D = led s INI_D + (l_target lk - l_fee lk) /\ xfee s' = xfee s + l_fee lk) /\
+  (l_init lk = 2 -> led s' INI_D = led s INI_D + (l_target lk - l_fee lk) + ext_incentive cf lk /\
+                    xfee s' = xfee s + (l_fee lk - ext_incentive cf lk) /\ 0 <= ext_incentive cf lk <= l_fee lk) /\
   (l_init lk <> 0 -> l_init lk <> 2 -> led s' POOL_D = led s POOL_D + l_target lk /\ xfee s' = xfee s).
 Proof.
-  intros GC GA Htwa Hfee Hwho H Hkf.
+  intros GC GA Htwa Hfee Hwho H.
   pose proof (place_bid_amounts _ _ _ _ _ _ _ _ _ _ _ GC GA Htwa H) as (Hpaid & Hrecv & _ & Hne & He & _).
   assert (Hsum : r_paid r + r_topup r = a_debt a).
   { destruct (r_exh r) eqn:Hx.
-    - destruct (He eq_refl) as (_ & _ & Hsh & Htp). unfold kf_C10_2 in Hkf. rewrite Hx in Hkf. cbn in Hkf. lia.
-    - destruct (Hne eq_refl) as (Hp & _). destruct (noexh_zero _ _ _ _ _ _ _ _ _ _ _ H Hx). lia. }
+    - destruct (He eq_refl) as (_ & _ & Hsh & Htp). lia.
+    - destruct (Hne eq_refl) as (Hp & _). destruct (proj1 (topup_zero _ _ _ _ _ _ _ _ _ _ _ H) Hx). lia. }
   destruct (close_ledger _ _ _ _ _ _ _ _ _ _ GC GA Htwa Hfee H) as (ki & pen & Hki & Hpen & Hkp & HL).
   split; [exact Hsum|].
   pose proof (HL AUC_C) as (EC & Hxf & Hk2). pose proof (HL AUC_D) as (ED & _ & _).
   pose proof (HL OWN_C) as (EO & _ & _). pose proof (HL (BID_C who)) as (EB & _ & _).
   pose proof (HL BRN_D) as (EBr & _ & _). pose proof (HL COL_D) as (ECo & _ & _). pose proof (HL KEE_D) as (EK & _ & _).
-  pose proof (HL INI_D) as (EI & _ & _). pose proof (HL POOL_D) as (EP & _ & _).
+  pose proof (HL INI_D) as (EI & _ & _). pose proof (HL POOL_D) as (EP & _ & _). pose proof (HL LIQ_D) as (EL & _ & _).
   clear HL. unfold delta, AUC_C, AUC_D, OWN_C, COL_D, KEE_D, INI_D, NUL_D, LIQ_D, BRN_D, POOL_D, BID_C, BID_D in *.
   split. { clear - EC Hwho. revert EC. eqbs. }
-  split. { clear - ED Hxf Hwho Hsum Hkp Hk2. revert ED Hxf Hk2. eqbs. }
+  split. { clear - ED Hxf Hwho Hsum Hkp. revert ED Hxf. eqbs. }
   split. { clear - EO EB Hwho. revert EO EB. eqbs. }
+  split. { clear - EL Hwho. revert EL. eqbs. }
   split. { intros I0. clear - EBr ECo EK Hxf Hwho Hkp I0. revert EBr ECo EK Hxf. rewrite I0. eqbs. }
-  split. { intros I2. clear - EI Hxf Hwho I2. revert EI Hxf. rewrite I2. eqbs. }
+  split. { intros I2. rewrite <- (Hk2 I2). clear - EI Hxf Hwho I2 Hkp Hki Hpen. revert EI Hxf. rewrite I2. eqbs. }
   intros I0 I2. clear - EP Hxf Hwho I0 I2. revert EP Hxf. eqbs.
 Qed.
 
-(* C10-F3: with a positive keeper incentive an externally initiated auction has no closing bid *)
-Lemma external_never_closes cf lk a s who amt0 wd twa s' r :
-  kf_C10_3 cf lk = true -> place_bid cf lk a s who amt0 wd twa <> Ok (s', None, r).
+(* a partial bid: only the bidder and the auction account move; reserve and fee book untouched *)
+Lemma partial_ledger cf lk a s who amt0 wd twa s' b r :
+  good_cfg cf lk -> good_auction cf lk a -> 0 <= twa < 9223372036854775808 ->
+  place_bid cf lk a s who amt0 wd twa = Ok (s', Some b, r) ->
+  xfee s' = xfee s /\ rsv s' = rsv s /\
+  forall k, led s' k = led s k + delta k (BID_D who) AUC_D (r_paid r) + delta k AUC_C (BID_C who) (r_recv r).
 Proof.
-  unfold kf_C10_3. intros Hkf H. apply andb_prop in Hkf as (I2 & Hki).
+  intros GC GA Htwa H.
+  pose proof (place_bid_amounts _ _ _ _ _ _ _ _ _ _ _ GC GA Htwa H) as (Hpaid & Hrecv & _).
   unfold place_bid in H.
-  destruct (amt0 <=? 0); [discriminate|]. destruct wd; [discriminate|].
+  destruct (Z.leb_spec amt0 0); [discriminate|]. destruct wd; [discriminate|].
   apply obind_ok in H as (q & _ & H). apply obind_ok in H as (qb & _ & H).
-  destruct (_ || _).
-  - apply obind_ok in H as ([[[[? ?] ?] ?] ?] & _ & H).
+  destruct (_ || _) eqn:Hbr.
+  { apply obind_ok in H as ([[[? ?] ?] ?] & _ & H).
     apply obind_ok in H as (? & _ & H). apply obind_ok in H as (? & _ & H).
     apply obind_ok in H as (? & _ & H). apply obind_ok in H as (? & _ & H).
-    destruct ((_ <? 0) || (_ <? 0)); [discriminate|]. apply obind_ok in H as ([? ?] & Hs & _).
-    unfold settle in Hs. rewrite I2 in Hs. destruct (_ <? 0); [discriminate|]. rewrite Hki in Hs. discriminate.
-  - apply obind_ok in H as (? & _ & H). apply obind_ok in H as (? & _ & H).
-    destruct (negb (_ >? dec_of_int _)); [discriminate|]. apply obind_ok in H as (? & _ & H).
-    apply obind_ok in H as (? & _ & H). apply obind_ok in H as (? & _ & H). apply obind_ok in H as (? & _ & H).
-    destruct ((_ <? 0) || (_ <? 0)); discriminate.
+    destruct ((_ <? 0) || (_ <? 0)); [discriminate|]. apply obind_ok in H as ([? ?] & _ & H). discriminate. }
+  apply obind_ok in H as (q' & _ & H). apply obind_ok in H as (usd & _ & H).
+  destruct (negb (_ >? dec_of_int _)); [discriminate|]. apply obind_ok in H as (ratio & _ & H).
+  apply obind_ok in H as (qb' & _ & H). apply obind_ok in H as (L2 & H2 & H). apply obind_ok in H as (L3 & H3 & H).
+  destruct ((_ <? 0) || (_ <? 0)); [discriminate|]. injection H as <- _ <-. cbn in *.
+  split; [reflexivity|]. split; [reflexivity|]. intros k.
+  rewrite (gsend_delta _ _ _ _ _ _ (proj1 Hrecv) H3 k), (gsend_delta _ _ _ _ _ _ (proj1 Hpaid) H2 k). lia.
 Qed.
 
-(* concrete states used by the refutation witnesses (the history of harness case 92, seed 1) *)
+(* the reserve record stays non-negative and backed by the liquidation module's balance *)
+Lemma reserve_backed cf lk a s who amt0 wd twa s' a' r rv :
+  good_cfg cf lk -> good_auction cf lk a -> 0 <= twa < 9223372036854775808 -> 0 <= l_fee lk -> 0 <= who ->
+  place_bid cf lk a s who amt0 wd twa = Ok (s', a', r) ->
+  rsv s = Some rv -> 0 <= rv <= led s LIQ_D ->
+  exists rv', rsv s' = Some rv' /\ 0 <= rv' <= led s' LIQ_D /\ rv - rv' = led s LIQ_D - led s' LIQ_D.
+Proof.
+  intros GC GA Htwa Hfee Hwho H Hr Hb.
+  destruct (reserve_spec _ _ _ _ _ _ _ _ _ _ _ H) as (Hn & Hx).
+  destruct a' as [b|].
+  - destruct (partial_ledger _ _ _ _ _ _ _ _ _ _ _ GC GA Htwa H) as (_ & Hrs & HL).
+    exists rv. rewrite Hrs. split; [exact Hr|]. specialize (HL LIQ_D).
+    unfold delta, LIQ_D, AUC_C, AUC_D, BID_C, BID_D in *. revert HL. eqbs.
+  - destruct (close_complete _ _ _ _ _ _ _ _ _ _ GC GA Htwa Hfee Hwho H) as (_ & _ & _ & _ & HL & _).
+    destruct (r_exh r) eqn:E.
+    + destruct (Hx eq_refl) as (rv0 & Hr0 & Hr' & Hge). rewrite Hr in Hr0. injection Hr0 as <-.
+      exists (rv - r_topup r). split; [exact Hr'|]. lia.
+    + destruct (Hn eq_refl) as (Ht & Hrs). exists rv. rewrite Hrs. split; [exact Hr|]. lia.
+Qed.
+
+(* ------------------------------------------------------------------------------------------ *)
+(* regression witnesses of the two repaired defects (the states of the harness corpus cases)   *)
+
+(* C10-F2 (harness corpus case 1 = seed 1 case 92 of the first build): external auction, 4889641
+   collateral left against 9143315 debt, reserve 1000, closing bid at a price where the collateral
+   covers only 8703243 *)
 Definition w_cf : acfg := mkCfg 1500000000000000000 650000000000000000 1000 0 0 1000000 1000000.
 Definition w_lk : locked := mkLk 4890000 9144300 831300 831300 2 false false.
 Definition w_au : auction := mkAu 4889641 9143315 831300 1949947497374868743437172 3000000000000000000000000
                                   2380000000000000000000000 1000000000000000000000000 0 1000.
-Definition w_led : ledger := fun k => if k =? 0 then 4889641 else if k =? 1 then 985 else if k =? 7 then 1000
+Definition w_led (liq : Z) : ledger := fun k => if k =? 0 then 4889641 else if k =? 1 then 985 else if k =? 7 then liq
                                       else if k =? 11 then 4611686018427387798 else 0.
-Definition w_s : bstate := mkS w_led (Some 1000) 0.
+Definition w_s (reserve : Z) : bstate := mkS (w_led reserve) (Some reserve) 0.
 
-Lemma reserve_refuted :
-  exists s' r, place_bid w_cf w_lk w_au w_s 0 27429945 false 1000000 = Ok (s', None, r) /\
-    kf_C10_2 r = true /\ r_paid r = 8703243 /\ r_short r = 440072 /\ r_topup r = 0 /\
-    rsv s' = Some (-439072) /\
-    led s' AUC_D - xfee s' = led w_s AUC_D - xfee w_s - (l_target w_lk - a_debt w_au) - 440072.
+(* before the repair this bid succeeded with nothing transferred, reserve record -439072 and the
+   auction account 440072 short; now it is rejected and the life is unchanged *)
+Lemma reserve_short_rejected :
+  place_bid w_cf w_lk w_au (w_s 1000) 0 27429945 false 1000000 = Err 3 /\
+  forall p rc t, step w_cf w_lk (mkLife (w_s 1000) (Some w_au) p rc t) (Bid 0 27429945 false 1000000)
+                 = mkLife (w_s 1000) (Some w_au) p rc t.
 Proof.
-  destruct (place_bid w_cf w_lk w_au w_s 0 27429945 false 1000000) as [[[s' [a'|]] r]| |] eqn:E;
+  assert (E : place_bid w_cf w_lk w_au (w_s 1000) 0 27429945 false 1000000 = Err 3) by (vm_compute; reflexivity).
+  split; [exact E|]. intros. unfold step. cbn [f_a f_s]. rewrite E. reflexivity.
+Qed.
+
+(* with a reserve that covers the shortfall (440072) the same bid closes and everything is backed *)
+Lemma reserve_covered_closes :
+  exists s' r, place_bid w_cf w_lk w_au (w_s 440072) 0 27429945 false 1000000 = Ok (s', None, r) /\
+    r_exh r = true /\ r_paid r = 8703243 /\ r_topup r = 440072 /\ rsv s' = Some 0 /\ led s' LIQ_D = 0 /\
+    led s' INI_D = 8313000 /\ xfee s' = 831300 /\ led s' AUC_D = 831300 /\ led s' AUC_C = 0.
+Proof.
+  destruct (place_bid w_cf w_lk w_au (w_s 440072) 0 27429945 false 1000000) as [[[s' [a'|]] r]| |] eqn:E;
+    vm_compute in E; try discriminate.
+  exists s', r. split; [reflexivity|]. injection E as <- <-. vm_compute. repeat split; reflexivity.
+Qed.
+
+(* C10-F3 (harness corpus case 0 = seed 1 case 0 of the first build): external auction of an app
+   with KeeeperIncentive 0.1; before the repair every closing bid panicked *)
+Definition x_cf : acfg := mkCfg 1500000000000000000 700000000000000000 3600 1000000 100000000000000000 1000000 1000000.
+Definition x_lk : locked := mkLk 568000 493592 44872 0 2 false false.
+Definition x_au : auction := mkAu 568000 493592 0 1500000000000000000000000 1500000000000000000000000
+                                  1000000000000000000000000 1000000000000000000000000 7201 10801.
+Definition x_led : ledger := fun k => if k =? 0 then 568000 else if k =? 7 then 1125899906842624
+                                      else if k =? 11 then 4611686018427387904 else 0.
+Definition x_s : bstate := mkS x_led (Some 1125899906842624) 0.
+
+Lemma external_closes :
+  exists s' r, place_bid x_cf x_lk x_au x_s 0 493593 false 1000000 = Ok (s', None, r) /\
+    ext_incentive x_cf x_lk = 4487 /\ r_paid r = 493592 /\ r_recv r = 329061 /\
+    led s' INI_D = 448720 + 4487 /\ xfee s' = 40385 /\ led s' AUC_D = 40385 /\ led s' AUC_C = 0 /\
+    led s' OWN_C = 238939 /\ led s' NUL_D = 0.
+Proof.
+  destruct (place_bid x_cf x_lk x_au x_s 0 493593 false 1000000) as [[[s' [a'|]] r]| |] eqn:E;
     vm_compute in E; try discriminate.
   exists s', r. split; [reflexivity|]. injection E as <- <-. vm_compute. repeat split; reflexivity.
 Qed.
